@@ -223,6 +223,24 @@ def handle (ds : DS) (line : String) : IO DS := do
           let ds := { ds with rbytes := (c, b) :: ds.rbytes }
           let ds ← (if b != (reportByte c).toNat then ds.disagree s!"kind=report code={c} impl={b} model={reportByte c}" else pure ds)
           if lookupErrors.contains c && b != 90 then ds.oracleFail s!"in=- kind=report what=lookup-error-{c}-reported-as-{b}" else return ds
+  | ["Q", codeS, outH] =>
+    let ds := { ds with st := { ds.st with cases := ds.st.cases + 1 } }
+    let wrote : Bytes := [111, 117, 116, 0, 116, 97, 105, 108]       -- "out\0tail"
+    match unhex outH with
+    | none => ds.disagree "unparsable Q line"
+    | some o =>
+      let (m, c?) : Bytes × Option Nat := if codeS == "c" then (reportCrashedText, none) else
+        match nat? codeS with
+        | some c => (reportFull c wrote, some c)
+        | none => ([], none)
+      let ds ← (if o != m then ds.disagree s!"kind=reporttext code={codeS} impl={outH} model={hex m}" else pure ds)
+      -- `C11_report_text`: a lookup/identity error (and a crash) is reported as ONE line `Z…\n` that carries nothing of
+      -- what the child wrote
+      let must := match c? with | some c => lookupErrors.contains c | none => codeS == "c"
+      if must && !(o.head? == some 90 && o.getLast? == some LF && !o.dropLast.contains LF && !o.contains NUL && o.length > 2
+                   && !(o.drop 1).take 3 == [111, 117, 116]) then
+        ds.oracleFail s!"in=- kind=reporttext what=lookup-error-{codeS}-report-malformed impl={outH}"
+      else return ds
   | ["P", th] =>
     match unhex th with
     | some t => return { ds with pwtext := t, env := { ds.env with pw := parsePw t }, ctx := hashBytes (t ++ ds.assign) }
